@@ -326,6 +326,8 @@ func (r *cdpRunner) step() {
 		r.limitBidOp()
 	case x < 900 && r.cfg.priceMoves:
 		r.priceMove()
+	case x < 912 && r.cfg.reserve:
+		r.reserveOp()
 	default:
 		gap := time.Duration(1+r.rnd.Intn(20)) * time.Second
 		switch r.rnd.Intn(12) {
@@ -341,6 +343,41 @@ func (r *cdpRunner) step() {
 		}
 		r.block(gap)
 	}
+}
+
+// reserveOp: somebody tops up an app's reserve fund (the generation-2 auctions draw on it when the collateral of an
+// auction does not cover its target); small and large amounts, so that both "covers the shortage" and "does not" occur.
+func (r *cdpRunner) reserveOp() {
+	u := r.u
+	a := r.pickAcct()
+	d := []string{"ucmst", "ucmst", "ucmtw"}[r.rnd.Intn(3)]
+	as := u.byDenom[d]
+	if as == nil {
+		return
+	}
+	bal := r.last.bal(a.Name, d)
+	if bal.Sign() <= 0 {
+		return
+	}
+	var amt *big.Int
+	switch r.rnd.Intn(5) {
+	case 0:
+		amt = big.NewInt(int64(1 + r.rnd.Intn(1000)))
+	case 1:
+		amt = new(big.Int).Quo(bal, big.NewInt(1000))
+	case 2, 3:
+		amt = new(big.Int).Quo(bal, big.NewInt(int64(3+r.rnd.Intn(20))))
+	default:
+		amt = new(big.Int).Add(bal, big.NewInt(1)) // more than the sender has
+	}
+	if amt.Sign() <= 0 {
+		amt = big.NewInt(1)
+	}
+	app := uint64(appBeacon)
+	if r.rnd.Intn(8) == 0 {
+		app = u.cdpApps[r.rnd.Intn(len(u.cdpApps))]
+	}
+	r.tx("reserve_fund", a, &liqV2types.MsgAppReserveFundsRequest{From: a.Addr.String(), AppId: app, AssetId: as.ID, TokenQuantity: sdk.NewCoin(d, sdk.NewIntFromBigInt(amt))}, fmt.Sprintf("app=%d %s%s", app, amt, d))
 }
 
 // ownerOrOther returns the owner most of the time, sometimes another account (authorization noise).
